@@ -52,6 +52,7 @@ def plan(tier, seed):
     for i in range(n):
         shards.append(dict(name=f"mutate{i}", kind="mutate", n=300 if q else 6000, start=i, step=n))
         shards.append(dict(name=f"stream{i}", kind="badstream", n=25 if q else 400))
+        shards.append(dict(name=f"random{i}", kind="random", n=400 if q else 8000, start=i, step=n))
     return shards
 
 
@@ -227,6 +228,25 @@ def run_shard(shard, rec):
                     check(cases.Case("Response", m, cc=rng.choice(ccs), enc=rng.choice((None, None, True)), origin="mutated", sig=("mut",)), rec)
                 else:
                     check(cases.Case("Command", m, origin="mutated", sig=("mut",)), rec)
+        elif k == "random":
+            # random bytes and corpus packets decoded as the wrong type, all non-union types, warn mode
+            types = cases.non_union_types()
+            ccs = gen.ccs()
+            prs = corpus.pairs()[shard["start"] :: shard["step"]]
+            for i in range(shard["n"]):
+                r = rng.random()
+                if r < 0.5:
+                    nb = rng.choice((0, 1, 2, 3, 4, 6, 10, 12, 16, 24, 40))
+                    data = bytes(rng.choice((0, 0, 1, 2, 0x80, 0xFF, rng.randrange(256))) for _ in range(nb))
+                    tn = rng.choice(types)
+                    check(cases.Case(tn, data, origin="random", sig=("rnd", tn, nb)), rec)
+                elif r < 0.8:
+                    _f, c, rsp = rng.choice(prs)
+                    tn = rng.choice(types)
+                    check(cases.Case(tn, rng.choice((c, rsp)), origin="wrong-type", sig=("wt", tn)), rec)
+                else:
+                    _f, c, rsp = rng.choice(prs)
+                    check(cases.Case("Response", rsp, cc=rng.choice(ccs), enc=rng.choice((None, True)), origin="wrong-code", sig=("wc",)), rec)
         elif k == "badstream":
             for case in bad_streams(rng, shard["n"]):
                 check(case, rec)
